@@ -299,6 +299,11 @@ class Interp:
                 for p, x in zip(pat["pats"], v.payload):
                     self.bind(p, x, env)
                 return
+            if isinstance(v, Struct) and len(v.fields) == len(pat["pats"]) and all(str(i_) in v.fields for i_ in range(len(pat["pats"]))):
+                # destructuring a tuple struct: `let VecPoly3(a, b, c, d) = poly;`
+                for i_, p in enumerate(pat["pats"]):
+                    self.bind(p, v.fields[str(i_)], env)
+                return
             raise Unanalysable(f"tuple-struct pattern against {v!r}")
         if k == "StructPat":
             v = self.deref(val)
@@ -2068,7 +2073,54 @@ class Interp:
             r = self.while_let_next(e, env)
             if r is not NotImplemented:
                 return r
+            r = self.fill_while(e, env)
+            if r is not NotImplemented:
+                return r
         raise Unanalysable(f"loop ({e['src']}) without a summary schema", FX.short(e.get("sp")))
+
+    def fill_while(self, e, env):
+        """`while v.len() < N { ..; v.push(x); .. }` with exactly one push per iteration and N loop-invariant: a for loop over
+        the N - len(v) missing positions"""
+        b = e["body"]
+        x = b.get("expr") if b["k"] == "Block" and not b["stmts"] else None
+        if x is None or x["k"] != "If" or x["c"]["k"] != "Binary" or x["c"]["op"] not in ("<", ">", "!=") or x.get("f") is None:
+            return NotImplemented
+        fb = x["f"]
+        if not (fb["k"] == "Block" and len(fb["stmts"]) == 1 and fb["stmts"][0]["k"] in ("Expr", "Semi") and fb["stmts"][0]["e"]["k"] == "Break" and fb.get("expr") is None):
+            return NotImplemented
+        c, t = x["c"], x["t"]
+        l_, r_ = (c["l"], c["r"]) if c["op"] in ("<", "!=") else (c["r"], c["l"])
+        l_ = FX.strip(l_)
+        if not (l_["k"] == "MethodCall" and l_["name"] == "len" and FX.strip(l_["recv"])["k"] == "Path" and FX.strip(l_["recv"])["res"].get("k") == "Local"):
+            return NotImplemented
+        vid = FX.strip(l_["recv"])["res"]["id"]
+        if vid not in env or t["k"] != "Block" or FX.own_jumps(t):
+            return NotImplemented
+        # exactly one push to v at the top level of the body, no other use of v as a method receiver / assignment target
+
+        def is_v(n_):
+            n_ = FX.strip(n_)
+            return n_["k"] == "Path" and n_["res"].get("k") == "Local" and n_["res"].get("id") == vid
+
+        top_pushes = [s_ for s_ in t["stmts"] if s_["k"] in ("Semi", "Expr") and s_["e"]["k"] == "MethodCall" and s_["e"]["name"] == "push" and is_v(s_["e"]["recv"])]
+        all_mut = [n_ for n_ in FX.walk(t) if (n_["k"] == "MethodCall" and n_["name"] in ("push", "pop", "extend", "extend_from_slice", "append", "truncate", "clear", "resize", "insert", "remove") and is_v(n_["recv"])) or (n_["k"] in ("Assign", "AssignOp") and is_v(n_["l"]))]
+        if len(top_pushes) != 1 or len(all_mut) != 1:
+            return NotImplemented
+        bound = self.ev(r_, env)
+        cur = self.deref(env[vid])
+        if not (isinstance(bound, IntV) and isinstance(cur, Vec)):
+            return NotImplemented
+        r_b = FX.strip(r_)
+        if not (r_b["k"] == "Lit" or (r_b["k"] == "Path" and r_b["res"].get("k") == "Local" and not any(n_["k"] in ("Assign", "AssignOp") and FX.strip(n_["l"]).get("res", {}).get("id") == r_b["res"].get("id") for n_ in FX.walk(t)))):
+            return NotImplemented
+        if c["op"] == "!=" and not le(cur.length(), bound.e, self.bounds):
+            return NotImplemented
+        trips = sp.expand(bound.e - cur.length())
+        if self.decide(Cond("lt", sp.Integer(0), trips)) is False:
+            return UNIT
+        itv = IterV(Vec([Seg(trips, lambda jj: IntV(jj))]))
+        self.run_loop({"k": "Wild"}, itv, t, env, e)
+        return UNIT
 
     def while_let_next(self, e, env):
         """`while let Some(p) = it.next() { body }` with `it` a local iterator the body does not touch: `for p in it`"""
